@@ -38,7 +38,10 @@ def expected(c, fields, a):
     if x == "read":
         return fields["tl"] * a["blocksize"], 0, None
     if x == "write":
-        return 0, fields["tl"] * a["blocksize"], a["data"]
+        n = fields["tl"] * a["blocksize"]
+        if a.get("wrprotect") and a.get("data") is not None and len(a["data"]) > n and fields["tl"] and (len(a["data"]) - n) % fields["tl"] == 0:
+            n = len(a["data"])  # blocks with protection information behind each of them (8 / 16 / 64 bytes per block)
+        return 0, n, a["data"]
     if x == "writesame":
         if fields.get("ndob"):
             return 0, 0, None
@@ -182,6 +185,15 @@ def cases(c, rng, shard):
     if c.xfer == "none":
         for a in harness.walking_cases(c, rng, small=True):
             yield a
+    if c.xfer == "write":
+        # WRITE to a unit formatted with protection information: every block is followed by its 8 (16, 64) bytes
+        for bs in (512, 4096):
+            for tl in (1, 2, 7):
+                for extra in (8, 16, 64):
+                    a = harness.random_args(c, rng)
+                    a.update({"blocksize": bs, "tl": tl, "wrprotect": rng.randrange(1, 6)})
+                    a["data"] = harness.pattern_bytes((bs + extra) * tl, extra + tl)
+                    yield a
     if c.xfer == "writesame":
         for bs in harness.BLOCKSIZES:
             for ndob in ((0, 1) if "ndob" in c.args else (0,)):
